@@ -185,6 +185,9 @@ type File struct {
 	// IsDep: the file is not part of the bundle but an external dependency,
 	// handed to the compiler as a descriptor (plain messages and enums).
 	IsDep bool
+	// ListedOnly: the file is in the bundle's file listing but its directory is not offered
+	// as a package to compile (a hand-written file below a package's sub-directory)
+	ListedOnly bool
 }
 
 func (f *File) Package() string { return strings.ReplaceAll(f.Dir, "/", ".") }
@@ -259,6 +262,10 @@ func (p *Program) Bundle() *Bundle {
 				b.Deps = map[string]*descriptorpb.FileDescriptorProto{}
 			}
 			b.Deps[f.OutPath()] = f.depDescriptor()
+			continue
+		}
+		if f.ListedOnly {
+			b.Files[f.Path()] = f.Render()
 			continue
 		}
 		b.Add(f.Path(), f.Render())
